@@ -32,7 +32,7 @@ def _reg(pid: str, rules: t.List[t.Callable[..., t.Any]], explanation: str, assu
     }
 
 
-_reg('C03', [pairs.rule_c03_r1, pairs.rule_c03_r2, pairs.rule_c03_r3, extra.rule_unchecked_dict_complete],
+_reg('C03', [pairs.rule_c03_r1, pairs.rule_c03_r2, pairs.rule_c03_r3, extra.rule_unchecked_dict_complete, escape.rule_c04_r1],
      "Decides the structural clause of C03: for each of the Converter classes, the verdict atoms (branch literals with "
      "polarity, sub-converter delegations, guarded calls with their handler classes) of try_convert and collect_errors, "
      "with self-helpers inlined, are equal; convert() is the only driver. This is the local obligation of a structural "
@@ -47,7 +47,7 @@ _reg('C04', [escape.rule_c04_r1, escape.rule_c04_r2, escape.rule_c04_r3, escape.
      "Not decided: exceptions raised by == / __str__ of exotic values, RecursionError / MemoryError, errors of the JSON / YAML parsers.")
 
 _reg('C02', [gates.rule_c02_r1, gates.rule_c02_r2, gates.rule_c02_r3, gates.rule_c02_r4, dispatch.rule_c01_r1, purity.rule_c01_r2,
-             classes_rules.rule_c15_r4, extra.rule_no_swallowed_rejection, extra.rule_whole_value_delegation, gates.rule_c02_r6],
+             classes_rules.rule_c15_r4, extra.rule_no_swallowed_rejection, extra.rule_whole_value_delegation, gates.rule_c02_r6, gates.rule_c02_r7, classes_rules.rule_c17_r8, extra.rule_substitution_early_return],
      "Decides the structural clauses of C02: (R1) the sequence / iterable kind predicates exclude str, bytes and bytearray and the "
      "mapping predicate accepts mappings only; (R2) in both passes of every Converter class each structural use of the raw input "
      "(iteration, zip, enumerate, len, indexing, .items()) is dominated in the CFG by the passing branch of such a gate, across helper "
